@@ -429,6 +429,45 @@ theorem sendMessage_judged (c : Ctx) (s : S) (j : J) (pl : Bytes) (binary : Bool
       refine ⟨W, jn, h1, h2, ?_, h4⟩
       rw [h3]; simp only [List.nil_append]; rw [hcat]
 
+/-! ### prepared messages (`factory.prepareMessage` + `sendPreparedMessage`) -/
+
+theorem prepareKey_isSome (s : S) : (prepareKey s).2.isSome = !s.cfg.isServer := by
+  unfold prepareKey; split <;> simp_all
+
+/-- **C01, prepared messages**: the single frame built at prepare time (masked iff the factory is a client factory) is
+judged as exactly the message -/
+theorem sendPrepared_judged (c : Ctx) (s : S) (j : J) (pl : Bytes) (binary : Bool)
+    (hpmce : c.pmce = false) (hst : s.st = .opened) (hconn : ¬ (s.lost = true ∧ s.cfg.asyncio = true))
+    (ham : c.applyMask = true) (hmask : maskOk c (!s.cfg.isServer) = true)
+    (hlen : pl.length < 2 ^ 63) (hmsg : ¬ (0 < c.maxMsg ∧ c.maxMsg < pl.length))
+    (hfrm : ¬ (0 < c.maxFrame ∧ c.maxFrame < pl.length))
+    (hutf : (!binary && c.utf8validate) = true → utf8Valid pl = true) (hj : j.inside = false) :
+    ∃ W jn, wire (sendPrepared s pl binary) = wire s ++ W ∧ jn.inside = false ∧
+      jn.evs = j.evs ++ [.message pl binary false] ∧ ∀ after, JRuns c j (W ++ after) jn after := by
+  have hpre : Pre c j binary [] j.evs true := by unfold Pre; simp [hj]
+  obtain ⟨raw, henc⟩ := encodeFrame_some true 0 (if binary then 2 else 1) (prepareKey s).2 true pl hlen
+  have hu : (!binary && c.utf8validate) = true → u8run .s0 pl = .s0 := by
+    intro hv; have := hutf hv; unfold utf8Valid at this; simpa using this
+  obtain ⟨jn, hpost, hstep⟩ := frame_run c j binary true true [] pl raw j.evs (prepareKey s).2 true
+    hpmce ham (by rw [prepareKey_isSome]; exact hmask) hpre (by simpa using henc)
+    ⟨by simpa using hmsg, hfrm, fun hv => by simp only [List.nil_append]; rw [hu hv]; decide,
+     fun _ hv => by simp only [List.nil_append]; exact hu hv⟩
+  unfold Post at hpost
+  simp only [if_true, List.nil_append] at hpost
+  refine ⟨raw, jn, ?_, hpost.1, hpost.2, fun after => JRuns.step (hstep after) ?_ (JRuns.refl _ _)⟩
+  · have hk : (prepareKey s).1.st = s.st ∧ (prepareKey s).1.lost = s.lost ∧ (prepareKey s).1.cfg = s.cfg ∧
+        wire (recordOp (prepareKey s).1 (if binary then 2 else 1)) = wire s := by
+      unfold prepareKey recordOp; split <;> exact ⟨rfl, rfl, rfl, rfl⟩
+    unfold sendPrepared
+    simp only [henc]
+    have : ¬ (prepareKey s).1.st ≠ .opened := by rw [hk.1, hst]; simp
+    simp only [this, if_false]
+    rw [sendData_wire _ _ _ _ (by show (prepareKey s).1.st ≠ .closed; rw [hk.1, hst]; decide)
+      (by show ¬ ((prepareKey s).1.lost = true ∧ (prepareKey s).1.cfg.asyncio = true); rw [hk.2.1, hk.2.2.1]; exact hconn),
+      hk.2.2.2]
+  · have := encodeFrame_len2 _ _ _ _ _ _ _ henc
+    simp only [List.length_append]; omega
+
 /-! ### many messages, and the round trip through a receiving engine -/
 
 theorem sendFrags_SendEq (op : Nat) (sync : Bool) : ∀ (frs : List (Bytes × Bool)) (s : S) (first : Bool),
